@@ -148,7 +148,7 @@ Definition f360 : f32 := of_int 360.
 Definition f2 : f32 := of_int 2.
 
 Definition choose_shader (ti : xform) (src : source) (alpha : f32) : shader :=
-  let alpha := unit_to_u32 alpha in
+  let alpha := Z.min (unit_to_u32 alpha) 255 in
   match src with
   | Solid c => ShSolid (alpha_mul c (alpha_to_alpha256 alpha))
   | Image im e f t =>
